@@ -86,6 +86,9 @@ class Check:
         self.known = [k for k in load_known() if k.get("property") == pid]
         self.budget = float(os.environ.get("VERIF_BUDGET", 150 if self.tier == "quick" else 1500))
         os.makedirs(REPLAY, exist_ok=True)
+        for f in os.listdir(REPLAY):          # replay files of earlier runs of this property are stale
+            if f.startswith(pid + "-"):
+                os.remove(os.path.join(REPLAY, f))
 
     # ---------------------------------------------------------------- helpers
     def quick(self):
@@ -229,13 +232,19 @@ class Check:
         if self.drift:
             print("DRIFT property=%s count=%d (model/code disagreement with every contract clause holding) e.g. %s" %
                   (self.pid, self.drift, json.dumps(self.drift_samples[:1])))
+        tally = {}
+        for clause, ctx, path in self.violations:
+            kk = "%s alg=%s fmt=%s" % (clause, ctx.get("alg"), ctx.get("fmt"))
+            tally[kk] = tally.get(kk, 0) + 1
+        for kk in sorted(tally, key=lambda x: -tally[x])[:25]:
+            print("  violation-class: %6d  %s" % (tally[kk], kk))
         seen = set()
         for clause, ctx, path in self.violations:
             key = (clause, path)
             if key in seen:
                 continue
             seen.add(key)
-            if len(seen) <= 20:
+            if len(seen) <= 12:
                 print("VIOLATION property=%s replay=%s clause=%s ctx=%s" % (self.pid, path, clause, json.dumps(ctx, sort_keys=True)[:300]))
         cov = {
             "states": max(self.states, 0),
